@@ -9,6 +9,7 @@
 #include "family.h"
 #include <dirent.h>
 #include <pthread.h>
+#include <sys/mman.h>
 #include <sys/time.h>
 #include <time.h>
 
@@ -22,6 +23,15 @@ static int lsan_check(void) { return __lsan_do_recoverable_leak_check(); }
 static size_t live_bytes(void) { struct mallinfo2 mi = mallinfo2(); return mi.uordblks + mi.hblkhd; }
 static int lsan_check(void) { return 0; }
 #endif
+
+/* mmap of a reader can be made to fail once (ld --wrap=mmap): the error path must release everything */
+void *__real_mmap(void *, size_t, int, int, int, off_t);
+static int g_fail_mmap;
+void *__wrap_mmap(void *addr, size_t len, int prot, int flags, int fd, off_t off)
+{
+	if (g_fail_mmap && fd >= 0) { g_fail_mmap = 0; errno = ENOMEM; return MAP_FAILED; }
+	return __real_mmap(addr, len, prot, flags, fd, off);
+}
 
 /* ------------------------------------------------------------------ process snapshots */
 typedef struct { char fds[4096]; char maps[16384]; int nthreads; } snap_t;
@@ -131,6 +141,7 @@ static void write_setfile(hist_t *h, rng_t *r)
 	for (int i = 0; i < h->ntables; i++) if (rndp(r, 650)) { const char *b = strrchr(h->tables[i], '/'); if (rndp(r, 500)) fprintf(f, "%s\n", b + 1); else fprintf(f, "%s\n", h->tables[i]); }
 	if (rndp(r, 200)) fprintf(f, "does-not-exist.mtbl\n");
 	if (rndp(r, 200)) { const char *b = strrchr(h->junk, '/'); fprintf(f, "%s\n", b + 1); }
+	if (rndp(r, 200)) fprintf(f, "\n");          /* blank line: resolves to the directory itself */
 	fclose(f);
 	h->setver++;
 	struct timespec ts[2] = {{2000000 + h->setver, 0}, {2000000 + h->setver, 0}};
@@ -209,13 +220,15 @@ static void step(hist_t *h, rng_t *r, int thorough)
 			if (mtbl_writer_add(o->p, key, lk, val, lv) == mtbl_res_success) { o->wadds++; memcpy(o->wlast, key, lk); o->wlastn = lk; }
 		}
 	} else if (op < 32) {                                       /* reader: valid table, non-table, short file */
-		int which = rndn(r, 10);
-		const char *path = which < 7 ? h->tables[rndn(r, h->ntables)] : which < 9 ? h->junk : h->shortf;
+		int which = rndn(r, 12);
+		const char *path = which < 7 ? h->tables[rndn(r, h->ntables)] : which < 9 ? h->junk : which < 10 ? h->shortf : h->dir /* a directory: open() works, mmap() fails */;
+		if (which == 11) { path = h->tables[rndn(r, h->ntables)]; g_fail_mmap = 1; }   /* a valid table whose mmap() fails (address-space limit) */
 		struct mtbl_reader_options *ro = mtbl_reader_options_init();
 		mtbl_reader_options_set_verify_checksums(ro, rndn(r, 2)); mtbl_reader_options_set_madvise_random(ro, rndn(r, 2));
 		struct mtbl_reader *rd = mtbl_reader_init(path, ro);
+		g_fail_mmap = 0;
 		mtbl_reader_options_destroy(&ro);
-		if (!rd) { STAT(which < 7 ? "ops.reader.valid_table_returned_null?" : "ops.reader.non_table_returned_null"); return; }
+		if (!rd) { STAT(which < 7 ? "ops.reader.valid_table_returned_null?" : which >= 10 ? "ops.reader.mmap_failure_returned_null" : "ops.reader.non_table_returned_null"); return; }
 		int i = obj_new(h, T_READER, rd);
 		if (i < 0) { mtbl_reader_destroy(&rd); return; }
 		for (int t = 0; t < h->ntables; t++) if (path == h->tables[t]) h->o[i].model = &h->tmodel[t];
@@ -281,7 +294,14 @@ static void step(hist_t *h, rng_t *r, int thorough)
 		if (o->mc->have_fail) return;                              /* O1: iterating after a chunk-level merge failure is outside C18 */
 		if (rndn(r, 3) == 0) {
 			int wi = pick_live(h, r, T_WRITER);
-			if (wi >= 0 && h->o[wi].wadds == 0) { if (mtbl_sorter_write(o->p, h->o[wi].p) == mtbl_res_success) {} o->sorter_state = 1; h->o[wi].wadds = 1 << 20; h->o[wi].wlastn = 0; life("life.sorter.written_to_writer"); return; }
+			if (wi >= 0) {
+				/* also into a writer that already holds entries: the writer may refuse the sorter's first key and sorter_write reports failure */
+				int nonempty = h->o[wi].wadds != 0;
+				mtbl_res wres = mtbl_sorter_write(o->p, h->o[wi].p);
+				o->sorter_state = 1; h->o[wi].wadds = 1 << 20; h->o[wi].wlastn = 0;
+				life(wres == mtbl_res_success ? "life.sorter.written_to_writer" : nonempty ? "life.sorter.write_refused_by_nonempty_writer" : "life.sorter.write_failed");
+				return;
+			}
 		}
 		struct mtbl_iter *it = mtbl_sorter_iter(o->p);
 		o->sorter_state = 1;
